@@ -7,7 +7,9 @@ Pure functions (tied to the code through AES-GCM tags verified by the harness):
   maad <loc:hex> <size> <e> <o> <v> <nonce:hex> <c> <av> <tags> <g> <m>   -> <hex>   metadata_auth_aad
        optional strings: `-` = None, `=<hex>` = Some; optional numbers: `-` or decimal;
        tags: `-` or comma separated hex
-  verify <strict> <an> <at> <av|-> <g> <tagok>     -> ok:auth | ok:legacy | err:<class>   verify_metadata
+  verify <strict> <an> <at> <av|-> <g> <tagok> <payload> <head|list>
+                                                   -> ok:auth | ok:legacy | err:<class>   verify_metadata, then
+       head (payload object must exist) or a listing entry (metadata only)
   plan <size> <c> <range> <head>                   -> ok rStart rEnd <rr> startIdx startOffset len | err:range
        range: `-` | b:<s>:<e> | o:<n> | s:<n>;  rr: `-` | <s>:<e>
   stream <c> <startIdx> <startOffset> <len> <ntags> <segs>   create_decryption_stream over a symbolic
@@ -144,7 +146,7 @@ def step (_ : Unit) (line : String) : Unit × String :=
                          authTag := none, generation := g, committedAtMs := m }
       ((), hex (metaAad loc md))
     | _, _, _, _, _, _, _, _, _, _, _ => bad
-  | ["verify", strict, an, at_, av, g, tagok] =>
+  | ["verify", strict, an, at_, av, g, tagok, payload, entry] =>
     match optNat? av with
     | some av =>
       let A : AEAD := { enc := fun _ _ p => (p, []), dec := fun _ _ _ _ => if tagok = "1" then some [] else none }
@@ -153,10 +155,14 @@ def step (_ : Unit) (line : String) : Unit × String :=
                          authNonce := if an = "1" then some [] else none,
                          authTag := if at_ = "1" then some [] else none,
                          generation := if g = "1" then some [] else none, committedAtMs := none }
+      let B : Backend := { metaDoc := fun _ => .ok md, payload := fun _ _ => if payload = "1" then some [] else none }
       match verifyMetadata A (strict = "1") [] md with
-      | .ok .authenticated => ((), "ok:auth")
-      | .ok .legacy => ((), "ok:legacy")
       | .error e => ((), errName e)
+      | .ok a =>
+        let tag := match a with | .authenticated => "ok:auth" | .legacy => "ok:legacy"
+        match (if entry = "list" then listEntry A (strict = "1") B [] else headObject A (strict = "1") B []) with
+        | .ok _ => ((), tag)
+        | .error e => ((), errName e)
     | none => bad
   | ["plan", size, c, r, head] =>
     match size.toNat?, c.toNat?, range? r with
